@@ -3,6 +3,7 @@ package harness
 import (
 	"fmt"
 	"reflect"
+	"strings"
 	"time"
 
 	"github.com/enbility/spine-go/api"
@@ -183,4 +184,10 @@ func Registered(ft model.FeatureTypeType, fn model.FunctionType) bool {
 }
 
 //go:norace
-func fmtUints(a []uint) string { return fmt.Sprint(a) }
+func fmtUints(a []uint) string {
+	var l []string
+	for _, x := range a {
+		l = append(l, fmt.Sprint(x))
+	}
+	return "[" + strings.Join(l, ",") + "]"
+}
